@@ -218,6 +218,11 @@ def judge_file(part, fmtname, fname, fmt, text, tmp, step, tag):
                 continue
             tau1 = parse(newtok)
             want = (tau1 - 1.0 if mapname == "index" else tau1) if is_int else maps_value(maps, obj, mapname) * tau1
+            if all(v1[i] == v0[i] for i in places):
+                # the located element did not react at all: the token is not its source (e.g. the same quantity printed twice,
+                # a derived value that coincides); nothing can be concluded
+                part.outcome(tag, f"{vkind}:element-not-fed-by-token(not judged)")
+                continue
             judged += 1
             ok = True
             for i in places:
@@ -226,7 +231,7 @@ def judge_file(part, fmtname, fname, fmt, text, tmp, step, tag):
                 if abs(got - want) > tol:
                     ok = False
                     lab = labels[i]
-                    part.violation("metamorphic", f"{fmtname}:token-not-reflected:{vkind}:{re.sub(r'[0-9]+', 'N', lab[0])}", {"format": fmtname, "file": fname, "token": tok, "new_token": newtok, "position": m.start(), "variant": vkind},
+                    part.violation("metamorphic", f"{fmtname}:token-misread:{vkind}:{re.sub(r'[0-9]+', 'N', lab[0])}", {"format": fmtname, "file": fname, "token": tok, "new_token": newtok, "position": m.start(), "variant": vkind},
                                    f"{fname}: replacing {tok!r} by {newtok!r} (offset {m.start()}): {lab[0]}{list(lab[1])} held {v0[i]!r} (= {mapname} x {tau}), now {got!r}, expected {want!r}")
                     break
             if ok:
